@@ -76,7 +76,9 @@ SigDigits(A, r, e) ==
     ELSE IF r = 10 THEN DecLen(StripZeros(A))
     ELSE 1000
 
-\* v = raw * r^e; returns a diagnosis
+\* v = raw * r^e; returns a diagnosis.  mustBeExactIfShort: the text is shorter than the buffer, so nothing but the 18-digit
+\* limit can excuse a truncated expansion.  (A text that fills the buffer may be a truncation forced by the buffer: the static
+\* capacity itself is too small for the exact expansion of e.g. scaled_integer<int32_t, power<-5, 8>>{-1.414215087890625}.)
 ScaledTextDiag(t, raw, r, e, mustBeExactIfShort) ==
     LET p == ParseDecimal(t)
         A == Abs(raw)
@@ -112,7 +114,7 @@ JudgeTc(e, i) ==
         \* adequate buffer yields the text, and the fixed-capacity variants rely on it)
         bd == IF bd0 = "ok" /\ e.ec # 0 /\ ~IsScaledT(i.lt) /\ NumeralLen(v, i.base) <= e.cap THEN "refused_though_it_fits" ELSE bd0
         td == IF bd # "ok" \/ e.ec # 0 THEN "ok"
-              ELSE IF IsScaledT(i.lt) THEN ScaledTextDiag(e.txt, v, TextRadix(i.lt), ExpOf(i.lt), e.cap >= i.capacity)
+              ELSE IF IsScaledT(i.lt) THEN ScaledTextDiag(e.txt, v, TextRadix(i.lt), ExpOf(i.lt), Len(e.txt) < e.cap)
               ELSE IF IntTextOK(e.txt, v, i.base) THEN "ok" ELSE "text_not_value"
         mostNeg == MostNegativeOf(i.lt, v)
         cls == <<"Tc", IF IsScaledT(i.lt) THEN "scaled" ELSE "int", i.base, IF mostNeg THEN "most_negative" ELSE IF v.n THEN "neg" ELSE "pos",
@@ -124,7 +126,7 @@ JudgeTcStatic(e, i) ==
     LET v == J(e.v)
         mostNeg == MostNegativeOf(i.lt, v)
         cls == <<"TcStatic", IF IsScaledT(i.lt) THEN "scaled" ELSE "int", i.base, IF mostNeg THEN "most_negative" ELSE IF v.n THEN "neg" ELSE "pos">>
-        td == IF IsScaledT(i.lt) THEN ScaledTextDiag(e.txt, v, TextRadix(i.lt), ExpOf(i.lt), TRUE)
+        td == IF IsScaledT(i.lt) THEN ScaledTextDiag(e.txt, v, TextRadix(i.lt), ExpOf(i.lt), Len(e.txt) < i.capacity)
               ELSE IF IntTextOK(e.txt, v, i.base) THEN "ok" ELSE "text_not_value"
     IN [d |-> (IF TxUb(e.out) THEN "ub" ELSE IF e.out = "timeout" THEN "timeout" ELSE IF e.out # "ok" THEN "unreachable"
                ELSE IF e.ec # 0 \/ Len(e.static) = 0 THEN "static_capacity_too_small"
